@@ -7,17 +7,17 @@ ID = "C38"
 LEAN_MODULES = ["GoaktVerif.Props.C38"]
 THEOREMS = ["GoaktVerif.C38." + t for t in [
     "GCounter_join", "PNCounter_join", "Flag_join",
-    "LWW_join_unique_stamps", "LWW_assoc_idem_infl", "LWW_comm_refuted",
+    "LWW_join", "LWW_join_unique_stamps", "LWW_assoc_idem_infl", "LWW_comm_shared_node_refuted",
     "MV_join", "ORSet_join",
     "ORMap_comm_idem_infl", "ORMap_assoc_guarded", "ORMap_assoc_keys", "ORMap_assoc_refuted",
-    "C38_refuted", "C38_refuted'", "C38_partial",
+    "C38_refuted", "C38_partial",
     # invariants behind the laws (each is an induction over the reachability predicate)
-    "GCounter.wf_of_reachable", "ORSet.wf_of_reachable", "ORMap.wf_of_reachable", "MV.inv_of_reachable",
+    "GCounter.wf_of_reachable", "ORSet.wf_of_reachable", "ORMap.wf_of_reachable", "MV.inv_of_reachable", "LWW.inv_of_reachable",
 ]]
 INPKG = ["crdt/zz_verif_c38.go"]
 TIMEOUT = 1500
 MANIFEST = {
-    "level_text": "Kernel-checked theorems over hand-written Lean models of all seven CRDT types (field by field incl. delta/dirty bookkeeping): for EVERY state reachable by any operation sequence with any arguments on any replicas, merged in any grouping (inductive Reachable predicates; for MVRegister reachable systems of replicas writing under their own node id), Merge is commutative, associative, idempotent w.r.t. the replicated state and public value, and inflationary in the type's information order — proved via invariants (maps sorted, dots <= clock, a dot names one write, ORMap domain = key set). The full statement is REFUTED for the current code (C38_refuted, explicit witnesses replayed on the real code): LWWRegister.Merge is not commutative on equal (timestamp,node) with different values (C38-F1), ORMap.Merge is not associative on values when a key is removed and concurrently re-set (C38-F2). C38_partial is the strongest true statement: everything else, LWW for any family where a stamp determines the value, ORMap associativity on the key set always and on values under the decidable guard noResurrect. Model tied to /repo by a differential run of the real crdt package after every operation (dumps of the complete internal state of every variable) and the same laws + purity judged on the implementation's own merges.",
+    "level_text": "Kernel-checked theorems over hand-written Lean models of all seven CRDT types (field by field incl. delta/dirty bookkeeping): for EVERY state reachable by any operation sequence with any arguments on any replicas, merged in any grouping (inductive Reachable predicates; for MVRegister reachable systems of replicas writing under their own node id), Merge is commutative, associative, idempotent w.r.t. the replicated state and public value, and inflationary in the type's information order — proved via invariants (maps sorted, dots <= clock, a dot names one write, ORMap domain = key set). The full statement is REFUTED for the current code (C38_refuted, explicit witness replayed on the real code): ORMap.Merge is not associative on values when a key is removed and concurrently re-set (C38-F2). LWWRegister (C38-F1, fixed: Set orders a same-node same-timestamp write after the stored one) is proved a join on every reachable system of replicas writing under their own node id (LWW_join). C38_partial is the strongest true statement: everything else, ORMap associativity on the key set always and on values under the decidable guard noResurrect. Model tied to /repo by a differential run of the real crdt package after every operation (dumps of the complete internal state of every variable) and the same laws + purity judged on the implementation's own merges.",
     "level_note": "Trusted: Lean kernel + propext/Classical.choice/Quot.sound; the hand-written models are tied to the code only by the differential (bounded-exhaustive <=4 ops over 3 replicas in thorough, random <=30 ops in both tiers), not by translation. Modelled, not verified: node ids / elements / values are naturals (harness names node k 'n%04d' so Go string order = numeric order), dot counters are unbounded Nat (uint64 wrap needs 2^64 writes), ORMap values are GCounters in the differential (the theorems are generic in the value CRDT), Merge with a value of another CRDT type (returns the receiver) is not modelled. Purity is by construction in Lean; on the Go side it is a test (before/after dumps around every Merge/Clone, mutation of results).",
     "technique": "Lean 4 proofs (invariants over an inductive reachability predicate) on a hand-written model of the crdt package, model/implementation differential on op sequences, algebraic-law oracle on the implementation's own merges",
 }
@@ -30,7 +30,7 @@ TRUSTED = [
 ]
 ASSUMPTIONS = [
     "MVRegister: each node id is used by one replica only (otherwise two writes share a dot and Merge keeps the receiver's value)",
-    "LWWRegister partial theorem: a (timestamp,node) stamp determines the value (violated when a node calls Set twice in one clock reading: C38-F1)",
+    "LWWRegister: each node id is used by one replica only, and timestamps are below MaxInt64 (the tick of Set does not apply at MaxInt64)",
 ]
 EXHAUSTIVE = {"quick": False, "thorough": False}
 EXPLANATION = ("thorough: every script of <=3 ops, and every script of 4 ops for gc pn fl lw mv (a 25000-script sample for os om), over 3 replicas / 2 nodes "
@@ -58,7 +58,7 @@ def type_op(rng, ty, d, a, nodes, elems):
     if ty == "fl":
         return f"e:{d}:{a}"
     if ty == "lw":
-        return f"s:{d}:{a}:{rng.choice([0, 1, 2, 3])}:{rng.choice([-3, 0, 1, 2, 2, 5, 9])}:{rng.choice([0] + nodes)}"
+        return f"s:{d}:{a}:{rng.choice([0, 1, 2, 3])}:{rng.choice([-3, 0, 1, 2, 2, 5, 9])}:{rng.choice(nodes)}"
     if ty == "mv":
         return f"s:{d}:{a}:{n}:{rng.choice([0, 1, 2, 3])}"
     if ty == "os":
@@ -143,7 +143,7 @@ def exhaustive(ty, maxlen):
     R = 3
     alpha = []
     for i in range(R):
-        n = i + 1 if ty == "mv" else (i % 2) + 1
+        n = i + 1 if ty in ("mv", "lw") else (i % 2) + 1
         if ty == "gc":
             alpha += [f"i:{i}:{i}:{n}:1", f"i:{i}:{i}:{n}:2"]
         elif ty == "pn":
@@ -176,7 +176,7 @@ def gen_cases(rng, tier):
     per = 22 if tier == "quick" else 700
     for ty in TYPES:
         for _ in range(per):
-            if ty == "mv":
+            if ty in ("mv", "lw"):
                 cases.append(replica_case(rng, ty))
             elif rng.random() < 0.35:
                 cases.append(replica_case(rng, ty))
@@ -196,7 +196,7 @@ def search_cases(rng, tier):
     for ty in TYPES:
         cases += exhaustive(ty, 3)
         for _ in range(400):
-            cases.append(replica_case(rng, ty) if (ty == "mv" or rng.random() < 0.4) else random_case(rng, ty, maxops=rng.choice([4, 8, 16, 30])))
+            cases.append(replica_case(rng, ty) if (ty in ("mv", "lw") or rng.random() < 0.4) else random_case(rng, ty, maxops=rng.choice([4, 8, 16, 30])))
     return cases
 
 
